@@ -129,7 +129,10 @@ func (w *World) AddServer(pn *PeerNet, enableProxy bool) *ServerNode {
 		service.SetEtcdProxyForSim(sn.Peers, &ScriptedProxy{Net: pn, From: id})
 	}
 	pn.Servers[addr] = sn
+	// let this node's background loops reach their first cooperative point (the retry loop registers
+	// at its first tick) before another node is created, so that they are told apart
 	w.S.Settle()
+	w.S.Advance(1100 * time.Millisecond)
 	return sn
 }
 
